@@ -1,0 +1,15 @@
+//go:build verif
+
+// Contracts for package radiance/genesis, property C10 (comment-only; read by /verif/vcgo, build tag verif).
+package genesis
+
+// Reads and decodes the genesis archive (file I/O, tar, bincode): abstracted. Its own code returns non-nil values with a nil error.
+//@ func ReadGenesisFromFile
+//@   mode int
+//@   ensures err == nil ==> genesis != nil && hash != nil
+//@   noframe
+
+//@ func ReadGenesisFromArchive
+//@   mode int
+//@   ensures err == nil ==> genesis != nil && hash != nil
+//@   noframe
